@@ -2,6 +2,24 @@ package main
 
 // propRules: which rules decide which property.
 var propRules = map[string][]ruleSpec{
+	"C03": {
+		{"R7", "operator -> kernel table, operand order, multidirectional mode, boolean truth tables", ruleR7Binary},
+		{"R6", "required dtypes admitted (T8)", ruleR6},
+		{"R10", "Repeat only as a guarded stretch", ruleR10},
+		{"R22", "gorgonia's lax Shape.Eq does not decide shape matching", ruleR22},
+		{"R23", "per-axis loops visit every axis", ruleR23},
+		{"R20", "rank equalisation of the broadcast helpers", ruleR20Broadcast},
+		{"R3", "operands not modified (E2)", ruleR3},
+		{"R21", "attribute state read-only after Init", ruleR21},
+	},
+	"C10": {
+		{"R7", "operator -> function table, dtype-case/instantiation pairing, PRelu kernel shape", ruleR7Unary},
+		{"R18", "no select-by-multiplication", ruleR18},
+		{"R6", "required dtypes admitted (T8)", ruleR6},
+		{"R20", "Data() passes the scalar wrapper before slice assertions", ruleR20Scalar},
+		{"R3", "operands not modified (E2)", ruleR3},
+		{"R21", "attribute state read-only after Init", ruleR21},
+	},
 	"C11": {
 		{"R14", "Cast / Constant / ConstantOfShape tables", ruleR14},
 		{"R20", "source dtypes covered by the scalar wrapper", ruleR20Scalar},
